@@ -48,7 +48,10 @@ def gen_pair(rng, big=False):
 
     def st():
         return [Fraction(rng.randint(-4 * lim, 4 * lim), 4) for _ in range(n)]
-    return {"kind": "pair", "units": n, "in_dim": d, "W": W, "Win": c01.rmat(rng, n, d, den=4, lim=8),
+    # lr0: the node is built and warmed up with another leak rate, then `node.lr = lr` is assigned before the two checked runs
+    lr0 = Fraction(rng.randint(1, 8), 8) if rng.random() < 0.4 else None
+    return {"kind": "pair", "lr0": lr0, "warm": c01.rrows(rng, rng.randint(1, 3), d, lim=4) if lr0 is not None else None,
+            "units": n, "in_dim": d, "W": W, "Win": c01.rmat(rng, n, d, den=4, lim=8),
             "bias": [Fraction(rng.randint(-8, 8), 4) for _ in range(n)], "lr": Fraction(rng.randint(1, 8), 8),
             "act": act, "box": box, "ra": st(), "rb": st(), "X": c01.rrows(rng, T, d, lim=16 if box else 8)}
 
@@ -58,8 +61,13 @@ def run_pair(c, named=None):
     from reservoirpy.nodes import Reservoir
     n, d = c["units"], c["in_dim"]
     act = named if named else exact_fn(c["act"])
-    node = Reservoir(W=farr(c["W"], n), Win=farr(c["Win"], d), bias=fvec(c["bias"]).reshape(-1, 1), lr=float(fr(c["lr"])),
+    lr0 = c.get("lr0")
+    node = Reservoir(W=farr(c["W"], n), Win=farr(c["Win"], d), bias=fvec(c["bias"]).reshape(-1, 1),
+                     lr=float(fr(c["lr"] if lr0 is None else lr0)),
                      activation=act, noise_rc=0.0, noise_in=0.0, noise_fb=0.0, name=uname("esp"))
+    if lr0 is not None:
+        node.run(farr(c["warm"], d))
+        node.lr = float(fr(c["lr"]))       # attribute assignment on the initialised node
     X = farr(c["X"], d)
     oa = node.run(X, from_state=fvec(c["ra"]).reshape(1, -1))
     ob = node.run(X, from_state=fvec(c["rb"]).reshape(1, -1))
@@ -87,7 +95,7 @@ def correspondence(ctx):
         keep.append({"scenario": jsonable(c), "observed": o})
         sg = sigma_bound(c["W"])
         rho = (1 - fr(c["lr"])) + fr(c["lr"]) * sg
-        key = "act:%s rho%s1" % (c["act"], "<" if rho < 1 else ">=")
+        key = "act:%s rho%s1%s" % (c["act"], "<" if rho < 1 else ">=", " lr-reassigned" if c["lr0"] is not None else "")
         dist[key] = dist.get(key, 0) + 1
         d0 = np.linalg.norm(fvec(c["ra"]) - fvec(c["rb"]))
         dT = np.linalg.norm(np.array(o["oa"][-1]) - np.array(o["ob"][-1]))
@@ -95,7 +103,7 @@ def correspondence(ctx):
             nt.add(repr(jsonable(c)))
     failing, err = core.run_cases(ctx.pid, IMPORTS, terms, chunk=40)
     return {"evaluations": len(terms), "distinct_nontrivial": len(nt),
-            "rule": "pairs of runs of one real Reservoir (units 1-5, identity/relu/hard-tanh callables, scalar lr in (0,1], dyadic W) from two "
+            "rule": "pairs of runs of one real Reservoir (40% of them built and warmed up with another lr, then `node.lr = lr` assigned; units 1-5, identity/relu/hard-tanh callables, scalar lr in (0,1], dyadic W) from two "
                     "from_state start states on the same input; Coq checks model == observed for both, sigma^2 >= Frobenius^2(W), and "
                     "dist^2[t] <= ((1-lr)+lr*sigma)^2 dist^2[t-1] for every t (plus the [-1,1] box for hard-tanh) on the model's numbers; "
                     "non-trivial = factor < 1, distinct start states, final distance strictly between 0 and the initial one",
@@ -121,9 +129,24 @@ def gen_float(rng, T):
     st = 1.0 if act == "tanh" else rng.choice([1.0, 100.0])
     ra = g.uniform(-1, 1, n) * st
     rb = g.uniform(-1, 1, n) * st
-    return {"kind": "float", "units": n, "in_dim": d, "W": W.tolist(), "sigma": sigma, "Win": g.normal(size=(n, d)).tolist(),
+    lr0, warm = None, None
+    probe = rng.random()
+    if probe < 0.4:
+        lr0, warm = float(rng.choice([0.1, 0.5, 0.9, 1.0])), g.normal(size=(rng.randint(1, 20), d)).tolist()
+    return {"kind": "float", "lr0": lr0, "warm": warm, "units": n, "in_dim": d, "W": W.tolist(), "sigma": sigma, "Win": g.normal(size=(n, d)).tolist(),
             "bias": g.normal(size=n).tolist(), "lr": float(rng.choice([1.0, 0.5, 0.1, 0.01, g.uniform(0.01, 1.0)])),
             "act": act, "ra": ra.tolist(), "rb": rb.tolist(), "X": (g.normal(size=(T, d)) * scale).tolist()}
+
+
+def gen_relr(rng, T):
+    """the lead's probe: a tanh reservoir first run with lr=0.1, then `node.lr = 0.9`, then huge inputs from states inside the box"""
+    c = gen_float(rng, T)
+    g = np.random.default_rng(rng.randint(0, 2 ** 31))
+    n, d = c["units"], c["in_dim"]
+    c.update({"act": "tanh", "lr0": 0.1, "lr": 0.9, "warm": g.normal(size=(20, d)).tolist(),
+              "ra": g.uniform(-1, 1, n).tolist(), "rb": g.uniform(-1, 1, n).tolist(),
+              "X": (g.normal(size=(T, d)) * 10.0 ** g.integers(-2, 7, size=(T, 1))).tolist()})
+    return c
 
 
 def _judge(c):
@@ -150,11 +173,11 @@ def _judge(c):
         slack = 1e-12 + 1e-14 * n * max(mag, np.max(np.abs(pa)), np.max(np.abs(pb)))
         d0, d1 = np.linalg.norm(pa - pb), np.linalg.norm(a - bb)
         if not d1 <= rho * d0 + slack:
-            return _viol("contraction:%s" % actname,
+            return _viol("contraction:%s%s" % (actname, ":after-lr-reassignment" if c.get("lr0") is not None else ""),
                          "step %d: |x1-x2| = %.17g > ((1-lr)+lr*sigma) * previous distance = %.17g (sigma=%.3g, lr=%.3g)" % (t, d1, rho * d0, sigma, lr),
                          c, rho * d0, d1)
         if box and max(np.max(np.abs(a)), np.max(np.abs(bb))) > 1 + 1e-12:
-            return _viol("bounded:%s" % actname, "step %d: a state component left [-1,1]" % t, c, 1.0,
+            return _viol("bounded:%s%s" % (actname, ":after-lr-reassignment" if c.get("lr0") is not None else ""), "step %d: a state component left [-1,1]" % t, c, 1.0,
                          float(max(np.max(np.abs(a)), np.max(np.abs(bb)))))
         pa, pb = a, bb
     return None
@@ -167,14 +190,15 @@ def judge(case):
 def oracle(ctx, scale=1):
     rng = ctx.rng("oracle")
     T = ctx.n(50, 200)
-    cases = [gen_float(rng, T) for _ in range(ctx.n(60, 600) * scale)] + [gen_pair(rng, True) for _ in range(ctx.n(40, 200) * scale)]
+    cases = ([gen_float(rng, T) for _ in range(ctx.n(60, 600) * scale)] + [gen_relr(rng, T) for _ in range(ctx.n(15, 100) * scale)]
+             + [gen_pair(rng, True) for _ in range(ctx.n(40, 200) * scale)])
     out = []
     for c in cases:
         v = _judge(c)
         if v:
             out.append(v)
     return {"evaluations": len(cases), "violations": out,
-            "rule": "real Reservoir, W rescaled by numpy SVD to sigma in {0.3,0.9,0.99} (units <= 30), tanh/relu/identity, lr in (0,1], inputs x{1,1e3,1e6}: "
+            "rule": "real Reservoir, W rescaled by numpy SVD to sigma in {0.3,0.9,0.99} (units <= 30), tanh/relu/identity, lr in (0,1], inputs x{1,1e3,1e6}, 40% with lr reassigned on the initialised node after a first run + dedicated lr 0.1->0.9 tanh probes with inputs up to 1e6: "
                     "|x1[t]-x2[t]| <= ((1-lr)+lr*sigma)|x1[t-1]-x2[t-1]| + slack at every step; max|state| <= 1 + 1e-12 for tanh from inside the box"}
 
 
